@@ -47,8 +47,8 @@ SIGS = {
         'spike_train_order_profile_python': [('spikes1', 'arr'), ('spikes2', 'arr'), ('t_start', 'rat'), ('t_end', 'rat'), ('max_tau', 'rat'), ('MRTS', 'rat')],
     },
 }
-LEAN_TY = {'int': 'Int', 'rat': 'Rat', 'bool': 'Bool', 'arr': 'List Rat'}
-DEFAULT = {'int': '0', 'rat': '0', 'bool': 'false', 'arr': '[]'}
+LEAN_TY = {'int': 'Int', 'rat': 'Rat', 'bool': 'Bool', 'arr': 'List Rat', 'list': 'List Rat'}
+DEFAULT = {'int': '0', 'rat': '0', 'bool': 'false', 'arr': '[]', 'list': '[]'}
 RESERVED = {'st', 'F', 'fun', 'let', 'if', 'then', 'else', 'match', 'with', 'end', 'at', 'from', 'open', 'in', 'do',
             'by', 'have', 'show', 'Type', 'Prop', 'where', 'structure', 'def', 'theorem', 'instance', 'class'}
 
@@ -63,6 +63,75 @@ def ratlit(v):
     if fr.denominator == 1:
         return '(%d : Rat)' % fr.numerator
     return '((%d : Rat) / %d)' % (fr.numerator, fr.denominator)
+
+
+def _contains_bc(node):
+    """does the statement contain a break/continue that belongs to the enclosing loop?"""
+    if isinstance(node, (ast.Break, ast.Continue)):
+        return True
+    if isinstance(node, (ast.While, ast.For, ast.FunctionDef)):
+        return False
+    return any(_contains_bc(ch) for ch in ast.iter_child_nodes(node) if isinstance(ch, ast.stmt))
+
+
+def _assign(name, value):
+    return ast.Assign(targets=[ast.Name(id=name, ctx=ast.Store())], value=ast.Constant(value=value), lineno=0)
+
+
+def desugar_break_continue(stmts, counter):
+    """`break` / `continue` → boolean flags: the rest of the iteration is guarded by `not _skipK`, the loop
+    condition by `not _brkK`. Standard structured-programming transformation; the flags become ordinary
+    (boolean) locals of the generated state."""
+    def guard_seq(seq, k):
+        out = []
+        for idx, st_ in enumerate(seq):
+            if isinstance(st_, ast.Continue):
+                out.append(_assign('_skip%d' % k, True)); return out
+            if isinstance(st_, ast.Break):
+                out += [_assign('_brk%d' % k, True), _assign('_skip%d' % k, True)]; return out
+            if isinstance(st_, ast.If) and _contains_bc(st_):
+                out.append(ast.If(test=st_.test, body=guard_seq(st_.body, k) or [ast.Pass()], orelse=guard_seq(st_.orelse, k), lineno=st_.lineno))
+                rest = guard_seq(seq[idx + 1:], k)
+                if rest:
+                    out.append(ast.If(test=ast.UnaryOp(op=ast.Not(), operand=ast.Name(id='_skip%d' % k, ctx=ast.Load())),
+                                      body=rest, orelse=[], lineno=st_.lineno))
+                return out
+            out.append(rec(st_))
+        return out
+
+    def rec(st_):
+        if isinstance(st_, (ast.While, ast.For)):
+            body = [rec(x) for x in st_.body]
+            if any(_contains_bc(x) for x in st_.body):
+                counter[0] += 1
+                k = counter[0]
+                has_brk = any(isinstance(n, ast.Break) for x in st_.body for n in _own_nodes(x))
+                body = [_assign('_skip%d' % k, False)] + guard_seq(body, k)
+                if isinstance(st_, ast.While):
+                    test = st_.test
+                    if has_brk:
+                        test = ast.BoolOp(op=ast.And(), values=[ast.UnaryOp(op=ast.Not(), operand=ast.Name(id='_brk%d' % k, ctx=ast.Load())), st_.test])
+                    new = ast.While(test=test, body=body, orelse=st_.orelse, lineno=st_.lineno)
+                    return ast.If(test=ast.Constant(value=True), body=([_assign('_brk%d' % k, False)] if has_brk else []) + [new], orelse=[], lineno=st_.lineno)
+                new = ast.For(target=st_.target, iter=st_.iter, body=body, orelse=st_.orelse, lineno=st_.lineno)
+                new.brk_name = ('_brk%d' % k) if has_brk else None
+                return new
+            if isinstance(st_, ast.While):
+                return ast.While(test=st_.test, body=body, orelse=st_.orelse, lineno=st_.lineno)
+            new = ast.For(target=st_.target, iter=st_.iter, body=body, orelse=st_.orelse, lineno=st_.lineno)
+            return new
+        if isinstance(st_, ast.If):
+            return ast.If(test=st_.test, body=[rec(x) for x in st_.body], orelse=[rec(x) for x in st_.orelse], lineno=st_.lineno)
+        return st_
+
+    def _own_nodes(node):
+        yield node
+        if isinstance(node, (ast.While, ast.For, ast.FunctionDef)):
+            return
+        for ch in ast.iter_child_nodes(node):
+            if isinstance(ch, ast.stmt):
+                yield from _own_nodes(ch)
+    return [rec(x) for x in stmts]
 
 
 class Fn:
@@ -226,6 +295,55 @@ class Fn:
             if isinstance(e.value, float):
                 return ratlit(e.value), 'rat', False
             self.fail(e, 'constant %r' % (e.value,))
+        if isinstance(e, ast.Name) and e.id in getattr(self, 'lamvars', {}):
+            return e.id + '_', self.lamvars[e.id], False
+        if isinstance(e, ast.List):
+            # a Python list of floats (NOT a numpy array: `+` concatenates)
+            vals = [self.cx(v) for v in e.elts]
+            if not all(t in ('int', 'rat') for _, t, _ in vals):
+                self.fail(e, 'list of non-numbers')
+            code, o = self.lift([(c, oo) for c, _, oo in vals],
+                                lambda n: '[' + ', '.join(self.to_rat(x, vals[k][1]) for k, x in enumerate(n)) + ']')
+            return code, 'list', o
+        if isinstance(e, ast.ListComp):
+            if len(e.generators) != 1 or e.generators[0].ifs or e.generators[0].is_async:
+                self.fail(e, 'list comprehension form')
+            g = e.generators[0]
+            it = g.iter
+            if not (isinstance(g.target, ast.Name) and isinstance(it, ast.Call) and isinstance(it.func, ast.Name)
+                    and it.func.id == 'range' and len(it.args) in (1, 2)):
+                self.fail(e, 'list comprehension other than over range(a, b)')
+            lo = self.cx(it.args[0]) if len(it.args) == 2 else ('(0 : Int)', 'int', False)
+            hi = self.cx(it.args[-1])
+            if lo[1] != 'int' or hi[1] != 'int':
+                self.fail(e, 'range bounds')
+            v = g.target.id
+            old = dict(getattr(self, 'lamvars', {}))
+            self.lamvars = dict(old); self.lamvars[v] = 'int'
+            try:
+                bc, bt, bo = self.cx(e.elt)
+            finally:
+                self.lamvars = old
+            if bt not in ('int', 'rat'):
+                self.fail(e, 'list comprehension element type')
+            body = bc if bo else 'some (%s)' % bc
+            if bt == 'int':
+                body = 'Option.map (fun (z : Int) => (z : Rat)) (%s)' % body
+            code, o = self.lift([(lo[0], lo[2]), (hi[0], hi[2])],
+                                lambda n: 'MAPM %s %s' % (n[0], n[1]))
+            # mapM itself is Option-valued
+            def build(n):
+                return 'List.mapM (fun (%s_ : Int) => %s) (rangeInt %s %s)' % (v, body, n[0], n[1])
+            names, binds = [], []
+            for c_, o_ in ((lo[0], lo[2]), (hi[0], hi[2])):
+                if o_:
+                    w = self.fresh(); binds.append((w, c_)); names.append(w)
+                else:
+                    names.append(c_)
+            s_ = build(names)
+            for w, c_ in reversed(binds):
+                s_ = 'Option.bind (%s) fun %s => %s' % (c_, w, s_)
+            return '(%s)' % s_, 'list', True
         if isinstance(e, ast.Name):
             if e.id not in self.types:
                 self.fail(e, 'unknown name %s' % e.id)
@@ -320,7 +438,7 @@ class Fn:
             return '(if %s then %s else %s)' % (c, aa, bb), t, True
         if isinstance(e, ast.Subscript):
             a, ta, oa = self.cx(e.value)
-            if ta != 'arr':
+            if ta not in ('arr', 'list'):
                 self.fail(e, 'subscript of non-array')
             if isinstance(e.slice, ast.Slice):
                 sl = e.slice
@@ -346,7 +464,7 @@ class Fn:
                         return '(pyTo %s %s)' % (n[0], n[1])
                     return n[0]
                 code, o = self.lift(parts, build)
-                return code, 'arr', o
+                return code, ta, o
             i, ti, oi = self.cx(e.slice)
             if ti != 'int':
                 self.fail(e, 'index is not an integer')
@@ -365,6 +483,11 @@ class Fn:
         sym = {ast.Add: '+', ast.Sub: '-', ast.Mult: '*', ast.Div: '/'}.get(type(e.op))
         if sym is None:
             self.fail(e, 'operator %s' % type(e.op).__name__)
+        if ta == 'list' and tb == 'list' and isinstance(e.op, ast.Add):
+            code, o = self.lift([(a, oa), (b, ob)], lambda n: '(%s ++ %s)' % (n[0], n[1]))
+            return code, 'list', o
+        if 'list' in (ta, tb):
+            self.fail(e, 'arithmetic on a Python list')
         if 'arr' in (ta, tb):
             # numpy element-wise arithmetic
             if ta == 'arr' and tb == 'arr':
@@ -442,7 +565,7 @@ class Fn:
                 return code, 'rat', o
         if name == 'len' and len(args) == 1:
             a, ta, oa = self.cx(args[0])
-            if ta != 'arr': self.fail(e, 'len of non-array')
+            if ta not in ('arr', 'list'): self.fail(e, 'len of non-array')
             code, o = self.lift([(a, oa)], lambda n: '((%s).length : Int)' % n[0]); return code, 'int', o
         if name == 'abs' and len(args) == 1:
             a, ta, oa = self.cx(args[0])
@@ -468,6 +591,16 @@ class Fn:
                     s = '(%s %s %s)' % (name, s, x)
                 return s
             code, o = self.lift([(c, oo) for c, _, oo in vals], build); return code, t, o
+        if name == 'int' and len(args) == 1 and not self.tr.pyx:
+            c, t, o = self.cx(args[0])
+            if t == 'int':
+                return c, t, o
+            if t != 'rat': self.fail(e, 'int() of %s' % t)
+            code, oo = self.lift([(c, o)], lambda n: '(pyTrunc %s)' % n[0]); return code, 'int', oo
+        if name == 'np.zeros_like' and len(args) == 1:
+            a, ta, oa = self.cx(args[0])
+            if ta != 'arr': self.fail(e, 'zeros_like of non-array')
+            code, o = self.lift([(a, oa)], lambda n: '(npZeros ((%s).length : Int))' % n[0]); return code, 'arr', o
         if name in ('np.empty', 'np.zeros', 'np.ones') and len(args) == 1:
             a, ta, oa = self.cx(args[0])
             if ta != 'int': self.fail(e, 'array size')
@@ -728,9 +861,13 @@ class Fn:
                     self.fail(s, 'loop variable used after the loop')
             init = ast.Assign(targets=[ast.Name(id=i, ctx=ast.Store())], value=ast.Constant(value=0), lineno=s.lineno)
             test = ast.Compare(left=ast.Name(id=i, ctx=ast.Load()), ops=[ast.Lt()], comparators=[bound])
+            pre = []
+            if getattr(s, 'brk_name', None):
+                pre = [_assign(s.brk_name, False)]
+                test = ast.BoolOp(op=ast.And(), values=[ast.UnaryOp(op=ast.Not(), operand=ast.Name(id=s.brk_name, ctx=ast.Load())), test])
             inc = ast.AugAssign(target=ast.Name(id=i, ctx=ast.Store()), op=ast.Add(), value=ast.Constant(value=1), lineno=s.lineno)
             wh = ast.While(test=test, body=list(s.body) + [inc], orelse=[], lineno=s.lineno)
-            return self.block([init, wh] + rest, ind, assigned)
+            return self.block(pre + [init, wh] + rest, ind, assigned)
         self.fail(s, 'statement %s' % type(s).__name__)
 
     def cxr(self, e, assigned):
@@ -914,6 +1051,8 @@ class Fn:
         if names != [p for p, _ in self.params]:
             self.fail(node, 'parameter list %s differs from the signature table %s' % (names, [p for p, _ in self.params]))
         out = []
+        if any(isinstance(n, (ast.Break, ast.Continue)) for n in ast.walk(node)):
+            node.body = desugar_break_continue(node.body, [0])
         # nested function definitions are hoisted (they must not use variables of the enclosing function)
         for s in node.body:
             if isinstance(s, ast.FunctionDef):
@@ -1121,16 +1260,20 @@ class ClassTranslator(Translator):
         ('DiscreteFunc.py', 'DiscreteFunc', 'integral', 'disc_integral_all', ['x', 'y', 'mp'], [('interval', 'none')]),
         ('DiscreteFunc.py', 'DiscreteFunc', 'integral', 'disc_integral', ['x', 'y', 'mp'], [('interval', 'pair')]),
     ]
+    # a second generated file, so that the text of Gen/Classes.lean (and the proofs about it) stays as it is
+    SPECS2 = [
+        ('DiscreteFunc.py', 'DiscreteFunc', 'get_plottable_data', 'disc_plottable', ['x', 'y', 'mp'], [('averaging_window_size', 'int')]),
+    ]
 
-    def run(self):
-        out = ['/-\n  Gen/Classes.lean — GENERATED by harness/py2lean.py from the function classes of /repo\n'
+    def run(self, second=False):
+        out = ['/-\n  Gen/%s.lean — GENERATED by harness/py2lean.py from the function classes of /repo\n'
                '  (pyspike/PieceWiseConstFunc.py, PieceWiseLinFunc.py, DiscreteFunc.py). Do not edit.\n-/\n'
                'import PySpikeVerif.Gen.Prelude\n'
                'set_option linter.unusedVariables false\n'
-               'namespace PySpike.GenCls\nopen PySpike.Gen\n']
+               'namespace PySpike.GenCls\nopen PySpike.Gen\n' % ('Classes2' if second else 'Classes')]
         self.methods = {}
         trees = {}
-        for fname, cls, meth, lname_, fields, pk in self.SPECS:
+        for fname, cls, meth, lname_, fields, pk in (self.SPECS2 if second else self.SPECS):
             if fname not in trees:
                 trees[fname] = ast.parse(open(os.path.join(self.repo, 'pyspike', fname), 'rb').read().decode('utf-8'))
             cnode = [n for n in trees[fname].body if isinstance(n, ast.ClassDef) and n.name == cls]
@@ -1155,6 +1298,8 @@ class ClassTranslator(Translator):
                     params += [(p_ + '_0', 'rat'), (p_ + '_1', 'rat')]
                 elif k == 'scalar':
                     params.append((p_, 'rat'))
+                elif k == 'int':
+                    params.append((p_, 'int'))
             node.args.args = [ast.arg(arg=n_) for n_, _ in params]
             node.args.defaults = []
             fn = Fn(self, lname_, node, params)
@@ -1176,6 +1321,33 @@ def generate_classes(repo='/repo'):
     return ClassTranslator(repo).run()
 
 
+def generate_classes2(repo='/repo'):
+    return ClassTranslator(repo).run(second=True)
+
+
+class IsiLengthsTranslator(Translator):
+    """pyspike/isi_lengths.py: `isi_lengths(spike_times, t_start, t_end)` on a Python list of floats"""
+
+    def run(self):
+        out = ['/-\n  Gen/IsiLengths.lean — GENERATED by harness/py2lean.py from pyspike/isi_lengths.py of /repo. Do not edit.\n-/\n'
+               'import PySpikeVerif.Gen.Prelude\n'
+               'set_option linter.unusedVariables false\n'
+               'namespace PySpike.GenIsiLen\nopen PySpike.Gen\n']
+        path = os.path.join(self.repo, 'pyspike', 'isi_lengths.py')
+        tree = ast.parse(open(path, 'rb').read().decode('utf-8'))
+        node = [n for n in tree.body if isinstance(n, ast.FunctionDef) and n.name == 'isi_lengths']
+        if not node:
+            raise Untranslatable('isi_lengths.py: function isi_lengths not found')
+        fn = Fn(self, 'isi_lengths', node[0], [('spike_times', 'list'), ('t_start', 'rat'), ('t_end', 'rat')])
+        out.append(fn.translate())
+        out.append('end PySpike.GenIsiLen\n')
+        return '\n'.join(out)
+
+
+def generate_isi_lengths(repo='/repo'):
+    return IsiLengthsTranslator(repo).run()
+
+
 def generate_pyx(repo='/repo'):
     return PyxTranslator(repo).run()
 
@@ -1183,7 +1355,7 @@ def generate_pyx(repo='/repo'):
 if __name__ == '__main__':
     repo = sys.argv[1] if len(sys.argv) > 1 else '/repo'
     try:
-        sys.stdout.write(generate_pyx(repo) if (len(sys.argv) > 2 and sys.argv[2] == 'pyx') else generate_classes(repo) if (len(sys.argv) > 2 and sys.argv[2] == 'classes') else generate(repo))
+        sys.stdout.write(generate_pyx(repo) if (len(sys.argv) > 2 and sys.argv[2] == 'pyx') else generate_classes(repo) if (len(sys.argv) > 2 and sys.argv[2] == 'classes') else generate_isi_lengths(repo) if (len(sys.argv) > 2 and sys.argv[2] == 'isi_lengths') else generate_classes2(repo) if (len(sys.argv) > 2 and sys.argv[2] == 'classes2') else generate(repo))
     except Untranslatable as ex:
         sys.stderr.write('Untranslatable: %s\n' % ex)
         sys.exit(3)
